@@ -58,6 +58,9 @@ type c16world struct {
 	nm               map[int32]string
 	late             int    // canary patches / late subscribers so far
 	typ              string // type of k0
+	// keys of this case: unique per case, so that whatever a hostile request leaves behind in
+	// the process (a lock that is never released) stays with the case that caused it
+	k0, k9, kb string
 }
 
 // mutate applies 1-3 mutations to a request; returns a description.
@@ -364,7 +367,7 @@ func (x *c16world) canaryCheck() *core.Result {
 	x.late++
 	answered := false
 	pout := bed.Guard(15e9, func(ctx context.Context) error {
-		resp, err := x.w.b.Svc.PatchDocument(ctx, &model.PatchMessage{Collection: "colA", Key: "k0", Json: fmt.Sprintf(`{"canary":%d}`, x.late)})
+		resp, err := x.w.b.Svc.PatchDocument(ctx, &model.PatchMessage{Collection: "colA", Key: x.k0, Json: fmt.Sprintf(`{"canary":%d}`, x.late)})
 		answered = resp != nil
 		return err
 	})
@@ -384,7 +387,7 @@ func (x *c16world) canaryCheck() *core.Result {
 	c.Count("canary_patches_answered", 1)
 	if x.late%3 == 0 {
 		lc := x.w.b.NewClient("colA", fmt.Sprintf("late%d", x.late))
-		ld := lc.Open("k0", x.typ, bed.Subscribe)
+		ld := lc.Open(x.k0, x.typ, bed.Subscribe)
 		if ld != nil && lc.Register() == nil {
 			lex := lc.Send(lc.BuildRequest())
 			if lex.Out.Panic != "" {
@@ -419,6 +422,7 @@ func runC16(c *core.Case) *core.Result {
 	defer w.close()
 	r := c.Rng
 	x := &c16world{w: w, nm: map[int32]string{}}
+	x.k0, x.k9, x.kb = fmt.Sprintf("k0-%d", c.Index), fmt.Sprintf("k9-%d", c.Index), fmt.Sprintf("kb-%d", c.Index)
 	if err := w.b.CreateCollection("colB"); err != nil {
 		return c.Inconclusive("CreateCollection: %v", err)
 	}
@@ -432,13 +436,13 @@ func runC16(c *core.Case) *core.Result {
 		return cl
 	}
 	c0 := mk("colA", "c0")
-	d0 := c0.Open("k0", typ, bed.Create)
+	d0 := c0.Open(x.k0, typ, bed.Create)
 	c0.Register()
 	x.canary = mk("colA", "canary")
-	x.cz9 = x.canary.Open("k9", "counter", bed.Create)
+	x.cz9 = x.canary.Open(x.k9, "counter", bed.Create)
 	x.canary.Register()
 	x.foreign = mk("colB", "b0")
-	fb := x.foreign.Open("kb", typ, bed.Create)
+	fb := x.foreign.Open(x.kb, typ, bed.Create)
 	x.foreign.Register()
 	for _, cl := range []*bed.Client{c0, x.canary, x.foreign} {
 		if _, sig, msg := w.sync(cl); sig != "" {
@@ -448,13 +452,13 @@ func runC16(c *core.Case) *core.Result {
 	}
 	_ = fb
 	x.typ = typ
-	x.cz0 = x.canary.Open("k0", typ, bed.Subscribe)
+	x.cz0 = x.canary.Open(x.k0, typ, bed.Subscribe)
 	if _, sig, msg := w.sync(x.canary); sig != "" {
 		return verdict(c, "setup:", sig, msg)
 	}
 	w.idle()
 	c1 := mk("colA", "c1")
-	d1 := c1.Open("k0", typ, bed.Subscribe)
+	d1 := c1.Open(x.k0, typ, bed.Subscribe)
 	c1.Register()
 	if r.Intn(2) == 0 {
 		w.sync(c1)
@@ -618,7 +622,7 @@ func runC16(c *core.Case) *core.Result {
 				return res
 			}
 		case kind == 8:
-			pm := &model.PatchMessage{Collection: "colA", Key: "k0", Json: `{"a":1}`}
+			pm := &model.PatchMessage{Collection: "colA", Key: x.k0, Json: `{"a":1}`}
 			variant := r.Intn(6)
 			switch variant {
 			case 0:
@@ -630,7 +634,7 @@ func runC16(c *core.Case) *core.Result {
 			case 3:
 				pm.Collection = "nocol"
 			case 4:
-				pm.Key = "k9" // a counter
+				pm.Key = x.k9 // a counter
 			default:
 				pm.Key = ""
 			}
@@ -672,7 +676,7 @@ func runC16(c *core.Case) *core.Result {
 	}
 	// ---- client half
 	victim := mk("colA", "victim")
-	vd := victim.Open("k9", "counter", bed.Subscribe)
+	vd := victim.Open(x.k9, "counter", bed.Subscribe)
 	vo := victim.Open("kv", "counter", bed.Create)
 	victim.Register()
 	if _, sig, msg := w.sync(victim); sig != "" {
@@ -1000,7 +1004,7 @@ func (x *c16world) multiPackHandlerFault() *core.Result {
 		}
 		switch point {
 		case "pp.before-commit":
-			if args[3] == "k0" && atomic.CompareAndSwapInt32(&armed, 1, 0) {
+			if args[3] == x.k0 && atomic.CompareAndSwapInt32(&armed, 1, 0) {
 				panic("injected fault inside one handler of a two-pack message")
 			}
 		case "pp.cs-exit":
@@ -1031,7 +1035,7 @@ func (x *c16world) multiPackHandlerFault() *core.Result {
 		if n := len(ex.Resp.PushPullPacks); n != 2 {
 			return c.Violation("packs-lost:multi-pack-handler-fault", "a two-pack message one of whose handlers panicked was answered with %d packs", n)
 		}
-		if p := ex.PackOf("k9"); p != nil && bed.IsErrorPack(p) {
+		if p := ex.PackOf(x.k9); p != nil && bed.IsErrorPack(p) {
 			c.Count("diagnostic_sibling_pack_of_faulted_handler_refused", 1)
 		}
 		x.canary.Apply(ex.Resp)
